@@ -29,6 +29,13 @@ type V struct {
 	// NoConfirm skips the 5x replay confirmation (race-detector reports: the
 	// detector has no false positives but a race need not show on every run).
 	NoConfirm bool `json:"no_confirm,omitempty"`
+	// Timing: the verdict compares wall-clock times of real processes. Seen
+	// once among many concurrent cases on a loaded machine and never again when
+	// the case is replayed alone, it says nothing about the code: it is then
+	// counted in the evidence (wall_clock_observations_not_reproduced) and not
+	// reported. Reproduced once but not every time it is a harness error like
+	// any other unstable verdict.
+	Timing bool `json:"timing,omitempty"`
 }
 
 type Run struct {
@@ -268,10 +275,11 @@ func openDescriptors() string {
 // ViolationV records a violation given as a V (keeps NoConfirm).
 func (r *Run) ViolationV(v V) {
 	r.Violation(v.Key, v.What, v.Case)
-	if v.NoConfirm {
+	if v.NoConfirm || v.Timing {
 		r.mu.Lock()
 		if x, ok := r.viol[v.Key]; ok {
-			x.NoConfirm = true
+			x.NoConfirm = x.NoConfirm || v.NoConfirm
+			x.Timing = x.Timing || v.Timing
 			r.viol[v.Key] = x
 		}
 		r.mu.Unlock()
@@ -467,6 +475,8 @@ func (r *Run) Finish() {
 	}
 	// 5x confirmation of each unlisted violation through the replayer.
 	var confirmed []V
+	notReproduced := 0
+nextViolation:
 	for _, v := range unlisted {
 		if r.Replayer != nil && !v.NoConfirm && !r.skipConfirm && !strings.Contains(v.What, noYieldMarker) {
 			raw, err := json.Marshal(v.Case)
@@ -497,6 +507,11 @@ func (r *Run) Finish() {
 						// everything that ran before it
 						v = lv
 						break
+					}
+					if v.Timing && i == 0 {
+						notReproduced++
+						fmt.Printf("NOTE property=%s a wall-clock observation made among concurrent cases did not reproduce when the case was replayed alone and is not counted: %s\n", r.ID, oneLine(v.What))
+						continue nextViolation
 					}
 					Harness("flaky: violation %q did not reproduce on replay %d/5: %s", v.Key, i+1, v.What)
 				}
@@ -532,6 +547,9 @@ func (r *Run) Finish() {
 	}
 	if r.dropped > 0 {
 		cov["further_violations_not_listed"] = r.dropped
+	}
+	if notReproduced > 0 {
+		cov["wall_clock_observations_not_reproduced"] = notReproduced
 	}
 	if len(knownSeen) > 0 {
 		cov["known_findings_seen"] = len(knownSeen)
@@ -714,4 +732,12 @@ func (r *Run) replayConcurrently(raw json.RawMessage, key string) bool {
 	}
 	wg.Wait()
 	return found != 0
+}
+
+func oneLine(s string) string {
+	s = strings.ReplaceAll(s, "\n", " / ")
+	if len(s) > 400 {
+		s = s[:400] + "..."
+	}
+	return s
 }
